@@ -224,7 +224,7 @@ def run(ctx):
                     ctx.distinct.add(repr(cls_base + (row["s"] > 0,)))
                 else:
                     ctx.count("compared_loose")
-                if ctx.evaluations % 997 == 1:
+                if len(ctx.samples) < 2 or ctx.evaluations % 997 == 1:
                     ctx.sample(dict(desc, row=row, observed=float(ll[r]), reference=ref["ll"], tol=ref["tol"],
                                     assignment=list(a)))
             else:
